@@ -185,8 +185,8 @@ CASES += [
          old="      if ((handler->mArguments.findExactArg( key) != nullptr)\n          || (handler->mSubGroupArgs.findExactArg( key) != nullptr))\n         return handler;",
          new="      if ((handler->mArguments.findArg( key) != nullptr)\n          || (handler->mSubGroupArgs.findExactArg( key) != nullptr))\n         return handler;"),
     dict(id='c08-eq-owner-skip-positive-form', prop='C08', file=G, expect=None,
-         old="         if ((key_owner != nullptr)\n             && (stored_group.mpArgHandler.get() != key_owner))\n            continue;   // for\n\n         result = stored_group.mpArgHandler->evalSingleArgument( ai, alp.end());",
-         new="         if ((key_owner == nullptr)\n             || (stored_group.mpArgHandler.get() == key_owner))\n            result = stored_group.mpArgHandler->evalSingleArgument( ai, alp.end());"),
+         old="         if ((key_owner != nullptr)\n             && (stored_group.mpArgHandler.get() != key_owner))\n            continue;   // for\n\n         if (is_key)",
+         new="         if (!((key_owner == nullptr)\n               || (stored_group.mpArgHandler.get() == key_owner)))\n            continue;   // for\n\n         if (is_key)"),
 ]
 
 CASES += [
@@ -197,4 +197,18 @@ CASES += [
 CASES += [
     dict(id='c05-subgroup-container-args-swapped', prop='C05', file=H, expect='R2',
          old="   mSubGroupArgs( (flag_set & hfNoAbbr) == 0, true),", new="   mSubGroupArgs( true, (flag_set & hfNoAbbr) == 0),"),
+]
+
+CASES += [
+    dict(id='c08-orig-key-leaves-lists-open', prop='C08', file=G, expect='R5',
+         old="         for (auto & stored_group : mArgGroups)\n         {\n            stored_group.mpArgHandler->endValueList();\n         } // end for", new=""),
+    dict(id='c08-orig-last-does-not-stop', prop='C08', file=G, expect='R5',
+         old="      if (result == Handler::ArgResult::last)\n         break;   // for\n   } // end for", new="   } // end for"),
+    dict(id='c08-orig-inversion-to-first-member', prop='C08', file=G, expect='R5',
+         old="         invert_next = true;\n         continue;   // for", new="         invert_next = false;"),
+    dict(id='c08-inversion-not-cleared', prop='C08', file=G, expect='R5',
+         old="         if (is_key)\n            stored_group.mpArgHandler->mInverted = false;\n      } // end for", new="      } // end for"),
+    dict(id='c08-eq-end-lists-index-loop', prop='C08', file=G, expect=None,
+         old="         for (auto & stored_group : mArgGroups)\n         {\n            stored_group.mpArgHandler->endValueList();\n         } // end for",
+         new="         for (auto & member : mArgGroups)\n            member.mpArgHandler->endValueList();"),
 ]
